@@ -108,8 +108,8 @@ def target_owner(case):
 def _res_task_ids(case, cr):
     """task ids of the `task_dep` entries of a calc result: literal names, and for an entry with `*` every task whose
     name matches, in definition order -- what a wildcard task_dep means everywhere else in doit (TaskControl expands the
-    static ones at start-up).  NOTE: doit itself DROPS a wildcard that arrives in a calc result (open finding
-    calc-wild-dep-dropped); the harness and the model state what it should mean."""
+    static ones at start-up; TaskDispatcher._process_calc_dep_results the delivered ones since bf53535, finding
+    calc-wild-dep-dropped)."""
     idx = task_index(case)
     out = [idx[x] for x in cr.get('task_dep', []) if '*' not in x]
     for x in cr.get('task_dep', []):           # matches after the literal names, as for a static task_dep list
@@ -2516,7 +2516,7 @@ def strip_calc_wildcards(case):
 
 
 def sig_calc_wild_dropped(witness):
-    """SIGNATURE of the open finding `calc-wild-dep-dropped`: a calc result of the case delivers a task_dep with `*`,
+    """SIGNATURE of the finding `calc-wild-dep-dropped` (fixed upstream, bf53535; kept to name it in replays): a calc result of the case delivers a task_dep with `*`,
     and judged against the case WITHOUT those entries (what doit does: the pattern lands in Task.wild_dep, which is
     only expanded at start-up) the same trace satisfies every C01 and C02 monitor"""
     c2 = strip_calc_wildcards(witness.get('case') or {})
@@ -2622,19 +2622,6 @@ def judge(prop, case, obs, ans, st, shrink_left):
             st.divergence(make_witness(case, obs, disagree, py, lean, pywit),
                           'python and Lean monitors disagree on %s' % disagree)
         elif not ans.get('accepted') and not ans.get('skipped'):
-            c2 = strip_calc_wildcards(case)
-            if c2 is not None:
-                # open finding calc-wild-dep-dropped: doit ignores a wildcard inside a delivered task_dep.  When the
-                # model accepts the trace for the case WITHOUT those entries, this run shows exactly that defect (here
-                # without a monitor turning false: the matching tasks happened to be processed anyway)
-                a2 = ask_model([(c2, obs)])[0]
-                if 'error' not in a2 and a2.get('accepted'):
-                    st.count('known_shape:calc_wild_dep_dropped_by_doit')
-                    st.violation(make_witness(case, obs, [], py, lean, {'wildcard_in_calc_result_ignored': True}),
-                                 'correspondence:calc-wild-dep-dropped',
-                                 'the implementation trace is one of the model only when the wildcard task_dep a calc '
-                                 'task delivered is ignored')
-                    return used
             w = make_witness(case, obs, [], py, lean, {})
             w['matched'] = ans.get('matched')
             w['expected'] = ans.get('expected')
@@ -2822,7 +2809,7 @@ def replay_witness(prop, data):
         if sig_dup_selection(make_witness(case, obs, [b for b in bad if b in keys], py, lean, wit)):
             print('(this is the open known finding dup-selection-truncates)')
         if sig_calc_wild_dropped(make_witness(case, obs, [b for b in bad if b in keys], py, lean, wit)):
-            print('(this is the open known finding calc-wild-dep-dropped)')
+            print('(this is the finding calc-wild-dep-dropped, fixed upstream in bf53535: regression)')
     if lean is not None and not bad:
         print('model accepts the trace:', ans.get('accepted'), '' if ans.get('accepted') else
               '(matched %s, model could emit %s)' % (ans.get('matched'), ans.get('expected')))
